@@ -1,7 +1,7 @@
 """C02 driver (specification -> code): the internal structures rpylib builds for explicit weight vectors with a dyadic
 sum (all probabilities exact in floating point), for Struct_Alias / Struct_Bst / Struct_Huffman.tla.
 
-usage: python -m harness.drivers.struct_run <out.ndjson> <tier> <seed> <alias|bst|huffman>
+usage: python -m harness.drivers.struct_run <out.ndjson> <tier> <seed> <alias|bst|huffman|table>
 """
 import itertools
 import json
@@ -30,6 +30,7 @@ def main():
     from rpylib.distribution.variate.alias import AliasMethod
     from rpylib.distribution.variate.binarysearchtree import BinarySearchTree
     from rpylib.distribution.variate.huffmantree import HuffmanTree
+    from rpylib.distribution.variate.table import TableMethod
     maxlen = 4 if quick else 5
     vectors = []
     for n in range(2, maxlen + 1):
@@ -44,6 +45,14 @@ def main():
         vectors.append(w)
     rng.shuffle(vectors)
     vectors = vectors[:250 if quick else 3000]
+    if only == "table":
+        # sums 512 / 1024: the probabilities are exact and 256 p_i has a fractional part (the embedded alias method is used)
+        for _ in range(60 if quick else 600):
+            n = rng.choice([2, 3, 4, 5, 7])
+            S = rng.choice([512, 1024])
+            cuts = sorted(rng.sample(range(1, S), n - 1))
+            w = [b - a for a, b in zip([0] + cuts, cuts + [S])]
+            vectors.append(w)
     states = lambda k: np.array(k)
     traces = []
     for w in vectors:
@@ -58,11 +67,20 @@ def main():
                 elif kind == "bst":
                     smp = BinarySearchTree(p.copy(), states)
                     ev = {"bst": [exact_int(float(x) * S) for x in smp.bst]}
+                elif kind == "table":
+                    smp = TableMethod(p.copy(), states)
+                    am = smp.alias_method
+                    th = [(256 * x) % S for x in w]
+                    sth = sum(th)
+                    # the embedded alias tables in units of 1 / sum(theta): q_l * sum(theta) is an integer
+                    ev = {"table": [int(x) + 1 if int(x) >= 0 else -1 for x in smp.J],
+                          "q": [exact_int(float(x) * sth) for x in am.q] if am is not None else [],
+                          "J": [int(x) + 1 for x in am.J] if am is not None else []}
                 else:
                     smp = HuffmanTree(p.copy(), states)
                     ev = {"shape": shape(smp.head)}
             except Exception as ex:
-                ev = {"q": [], "J": [], "bst": [], "shape": [], "raise": type(ex).__name__}
+                ev = {"q": [], "J": [], "bst": [], "shape": [], "table": [], "raise": type(ex).__name__}
             traces.append({"tid": f"s{len(traces)}", "hdr": hdr, "ev": [ev]})
     with open(out, "w") as f:
         for t in traces:
